@@ -33,7 +33,7 @@ except Exception as exc:  # the tie is broken: keep the committed layout, search
     extract_err = '%s: %s' % (type(exc).__name__, exc)
 chk.lean(['VermouthProps.C16', 'VermouthProps.C16Tables', 'VermouthProps.C16File', 'VermouthProps.C16Gro',
           'VermouthProps.C16Conect', 'VermouthProps.C16Format', 'VermouthProps.C16Total', 'VermouthProps.C16Merge',
-          'VermouthProps.C16Model'],
+          'VermouthProps.C16Model', 'VermouthProps.C16Full', 'VermouthProps.C16GroX'],
          'driver_c16', generated=gen)
 chk.extra['phase_s'] = {'lean_done': round(chk.elapsed(), 1)}
 if extract_err:
